@@ -175,6 +175,8 @@ func yieldJitter() int {
 	return int(yieldSeq>>33) % 800
 }
 
+// Quiesce waits until the other goroutines have nothing left to do (natively: a generous sleep)
+func Quiesce() { time.Sleep(150 * time.Millisecond) }
 func FireTimer() bool              { return false }
 func ArmedTimers() int             { return 0 }
 func And(a, b bool) bool           { return a && b }
